@@ -27,8 +27,8 @@ pub fn prop() -> Prop {
         subs: vec![
             Sub::enumerate("font_data", font_data),
             Sub::tape("builtin_render", 300, 100_000, 5_000_000, builtin_render),
-            Sub::tape("custom_fonts", 80, 100_000, 5_000_000, custom_fonts),
-            Sub::tape("str_mappings", 80, 100_000, 5_000_000, str_mappings),
+            Sub::tape("custom_fonts", 120, 100_000, 5_000_000, custom_fonts),
+            Sub::tape("str_mappings", 120, 100_000, 5_000_000, str_mappings),
             Sub::tape("very_long_lines", 40, 2_000, 100_000, very_long_lines),
         ],
     }
@@ -211,7 +211,7 @@ fn font_data(ex: &Ex) {
             }
             // unmapped characters get the replacement glyph, whose cell is inside the image
             let mut replacement: Option<usize> = None;
-            for &c in UNMAPPED.iter().chain(['\u{3042}', '\u{10FFFF}'].iter()) {
+            for &c in UNMAPPED_WIDE.iter().chain(['\u{3042}'].iter()) {
                 if chars.contains(&c) {
                     continue;
                 }
